@@ -31,6 +31,8 @@ class P(ServeProp):
             "Non-trivial = hostile header or piecewise transport, distinct by case line.")
 
     def gen(self, rnd, tier, n):
+        from .c04 import P as C04
+        self._c04 = C04()
         out = []
         for i in range(n):
             kind = "serveL" if rnd.random() < 0.15 else "serve"
@@ -47,6 +49,10 @@ class P(ServeProp):
                 if rnd.random() < 0.5: hs.append(b"Origin: " + gs.gen_origin(rnd, origins).encode())
                 if rnd.random() < 0.3: hs.append(b"Range: " + rnd.choice(gs.RANGES).encode())
             req = meth.encode() + b" " + tg.encode("utf-8", "surrogateescape") + b" HTTP/1.1\r\n" + b"".join(h + b"\r\n" for h in hs) + b"\r\n"
+            if rnd.random() < 0.2:
+                # the form controllers and their error branches answer too (every response the server emits)
+                fm, ftg, fhs, fbody = self._c04.form_request(rnd)
+                req = fm.encode() + b" " + ftg.encode() + b" HTTP/1.1\r\n" + b"".join(h.encode() + b"\r\n" for h in fhs) + b"\r\n" + fbody
             if rnd.random() < 0.15:
                 req = gs.mutate_request(rnd, req)
             r = rnd.random()
@@ -98,7 +104,13 @@ class P(ServeProp):
             a, b = self.raw(impl[d["0"]]), self.raw(impl[d["1"]])
             if a is None or b is None:
                 continue
-            if blank_volatile(a) != blank_volatile(b):
+            def echo_sorted(x):
+                # the form echo pages list the fields in hash-map order, which differs from run to run: compare them as sets of lines
+                sp = httpcanon.split_head(x)
+                if sp and b"Content-Type: text/plain" in sp[0]:
+                    return sp[0] + b"\r\n\r\n" + b"\r\n".join(sorted(sp[1].split(b"\r\n")))
+                return x
+            if echo_sorted(blank_volatile(a)) != echo_sorted(blank_volatile(b)):
                 ra, rb = httpcanon.parse_response(a), httpcanon.parse_response(b)
                 if ra and rb and ra["status"] >= 400 and ra["status"] != 404 and len(a) == len(b) and ra["status"] == rb["status"]:
                     continue       # error-message bodies quote the scratch directory, which differs between the two runs
